@@ -95,24 +95,31 @@ func (schemas Schemas) Consolidate() (Schemas, error) {
 }
 
 // AliasCycle looks for objects that are defined as each other without any
-// struct in between (`A: B` and `B: A`, `A: A`, `A: [...A]`): following such
-// references never ends. It returns the objects forming the first cycle found,
-// or nil.
+// struct in between (`A: B` and `B: A`, `A: A`, `A: [...A]`, `A: B | string`
+// with `B: [...A]`): following such references never ends. It returns the
+// objects forming the first cycle found, or nil.
 func (schemas Schemas) AliasCycle() []string {
-	// aliasTarget returns the object a type is an alias of, looking through
-	// arrays and maps.
-	var aliasTarget func(def Type) (RefType, bool)
-	aliasTarget = func(def Type) (RefType, bool) {
+	// aliasTargets returns the objects a type is an alias of, looking through
+	// arrays, maps and the branches of unions.
+	var aliasTargets func(def Type) []RefType
+	aliasTargets = func(def Type) []RefType {
 		switch {
 		case def.IsRef():
-			return def.AsRef(), true
+			return []RefType{def.AsRef()}
 		case def.IsArray():
-			return aliasTarget(def.AsArray().ValueType)
+			return aliasTargets(def.AsArray().ValueType)
 		case def.IsMap():
-			return aliasTarget(def.AsMap().ValueType)
+			return aliasTargets(def.AsMap().ValueType)
+		case def.IsDisjunction():
+			var targets []RefType
+			for _, branch := range def.AsDisjunction().Branches {
+				targets = append(targets, aliasTargets(branch)...)
+			}
+
+			return targets
 		}
 
-		return RefType{}, false
+		return nil
 	}
 
 	const (
@@ -141,12 +148,13 @@ func (schemas Schemas) AliasCycle() []string {
 			return nil
 		}
 
-		target, isAlias := aliasTarget(obj.Type)
-		if !isAlias {
-			return nil
+		for _, target := range aliasTargets(obj.Type) {
+			if cycle := visit(target, path); cycle != nil {
+				return cycle
+			}
 		}
 
-		return visit(target, path)
+		return nil
 	}
 
 	for _, schema := range schemas {
